@@ -49,8 +49,7 @@ theorem addressedIface_mem {o : Obj} {c : Call V} {i : Iface} (h : addressedIfac
   unfold addressedIface at h
   split at h <;> exact List.mem_of_find?_eq_some h
 
-theorem handleCall_eq (env : Env V) (ex : Exports) (k : Nat) (c : Call V) (behav : Nat → Outcome V)
-    (hwf : NamedIfaces ex) :
+theorem handleCall_eq (env : Env V) (ex : Exports) (k : Nat) (c : Call V) (behav : Nat → Outcome V) :
     handleCall env ex k c behav = expectedCall env k c behav (verdict ex c) := by
   unfold handleCall verdict lookupMethod dispatchMethod
   simp only [← isPair_iff, introspectable_eq, dictGet_eq_exported, findIface_eq, dictGet_methods]
@@ -80,11 +79,10 @@ theorem handleCall_eq (env : Env V) (ex : Exports) (k : Nat) (c : Call V) (behav
             | none => rfl
             | some m =>
               simp only [Option.map_some]
-              have hne : i.name ≠ [] := hwf (c.path, o) (exported_mem ho) i (addressedIface_mem hi)
               by_cases hs : m.sigIn = c.sig.getD []
               · have hs' : ¬ (c.sig.getD [] ≠ m.sigIn) := by simp [hs]
                 have hs'' : ¬ (m.sigIn ≠ c.sig.getD []) := by simp [hs]
-                rw [if_neg hs', if_neg hs'', resolveImpl_eq o i.name c.member hne]
+                rw [if_neg hs', if_neg hs'', resolveImpl_eq o i.name c.member]
                 cases bound o i.name c.member <;> rfl
               · have hs' : c.sig.getD [] ≠ m.sigIn := fun h => hs h.symm
                 rw [if_pos hs', if_pos hs]; rfl
